@@ -149,6 +149,9 @@ package core
 //@   modifies s.externalAgentsRegisteredGate.(*gateImpl).arrived
 //@   ensures [delegates] walkSpec(gateOf(s.externalAgentsRegisteredGate), r0)
 
+//@ event IntFinalOverwritten = call go.amzn.com/lambda/core.(*InternalAgent).setStateUnsafe when a0.currentState == a0.ExitErrorState || a0.currentState == a0.InitErrorState
+//@ event ExtFinalOverwritten = call go.amzn.com/lambda/core.(*ExternalAgent).setStateUnsafe when a0.currentState == a0.ExitErrorState || a0.currentState == a0.InitErrorState
+
 //@ event InitFlowCancel = call go.amzn.com/lambda/core.(*initFlowSynchronizationImpl).CancelWithError
 
 //@ event DeadlineHit = recv call:context.(Context).Done
@@ -486,7 +489,8 @@ package core
 //@   ensures [state-stays-valid] extValid(s.agent)
 
 //@ func (*ExternalAgentRegisteredState).Ready
-//@   requires held(s.agent) && extValid(s.agent)
+//@   requires held(s.agent) && extValid(s.agent) && s.agent.currentState == iface(s)
+//@   ensures [a-reported-error-is-final] delta(ExtFinalOverwritten) == 0
 //@   modifies s.agent.currentState, s.agent.stateLastModified, s.agent.errorType, mapof(s.agent.events), all(gateImpl.arrived)
 //@   ensures [parks-then-runs] r0 == nil ==> s.agent.currentState == s.agent.RunningState
 //@   ensures [arrives-init-ready-gate] gateOf(extInitFlow(s.agent).agentReadyGate).arrived <= old(gateOf(extInitFlow(s.agent).agentReadyGate).arrived) + 1 && unchanged(gateOf(extInvokeFlow(s.agent).agentReadyGate).arrived, gateOf(extInitFlow(s.agent).externalAgentsRegisteredGate).arrived)
@@ -507,7 +511,8 @@ package core
 //@   ensures [to-exit-error] r0 == nil && s.agent.currentState == s.agent.ExitErrorState && s.agent.errorType == errorType
 //@   ensures [state-stays-valid] extValid(s.agent)
 //@ func (*ExternalAgentRunningState).Ready
-//@   requires held(s.agent) && extValid(s.agent)
+//@   requires held(s.agent) && extValid(s.agent) && s.agent.currentState == iface(s)
+//@   ensures [a-reported-error-is-final] delta(ExtFinalOverwritten) == 0
 //@   modifies s.agent.currentState, s.agent.stateLastModified, s.agent.errorType, mapof(s.agent.events), all(gateImpl.arrived)
 //@   ensures [parks-then-runs] r0 == nil ==> s.agent.currentState == s.agent.RunningState
 //@   ensures [arrives-invoke-ready-gate] gateOf(extInvokeFlow(s.agent).agentReadyGate).arrived <= old(gateOf(extInvokeFlow(s.agent).agentReadyGate).arrived) + 1 && unchanged(gateOf(extInitFlow(s.agent).agentReadyGate).arrived, gateOf(extInitFlow(s.agent).externalAgentsRegisteredGate).arrived)
@@ -633,7 +638,8 @@ package core
 //@   loop range events: invariant unchanged(s.agent.currentState, gateOf(intInitFlow(s.agent).externalAgentsRegisteredGate).arrived) && intValid(s.agent) && held(s.agent) && 0 <= rangeindex + 1 && rangeindex + 1 <= len(events) && (forall i int :: 0 <= i && i <= rangeindex ==> events[i] == "INVOKE")
 
 //@ func (*InternalAgentRegisteredState).Ready
-//@   requires held(s.agent) && intValid(s.agent)
+//@   requires held(s.agent) && intValid(s.agent) && s.agent.currentState == iface(s)
+//@   ensures [a-reported-error-is-final] delta(IntFinalOverwritten) == 0
 //@   modifies s.agent.currentState, s.agent.stateLastModified, s.agent.errorType, mapof(s.agent.events), all(gateImpl.arrived)
 //@   ensures [parks-then-runs] r0 == nil ==> s.agent.currentState == s.agent.RunningState
 //@   ensures [arrives-init-ready-gate] gateOf(intInitFlow(s.agent).agentReadyGate).arrived <= old(gateOf(intInitFlow(s.agent).agentReadyGate).arrived) + 1 && unchanged(gateOf(intInvokeFlow(s.agent).agentReadyGate).arrived, gateOf(intInitFlow(s.agent).externalAgentsRegisteredGate).arrived)
@@ -654,7 +660,8 @@ package core
 //@   ensures [to-exit-error] r0 == nil && s.agent.currentState == s.agent.ExitErrorState && s.agent.errorType == errorType
 //@   ensures [state-stays-valid] intValid(s.agent)
 //@ func (*InternalAgentRunningState).Ready
-//@   requires held(s.agent) && intValid(s.agent)
+//@   requires held(s.agent) && intValid(s.agent) && s.agent.currentState == iface(s)
+//@   ensures [a-reported-error-is-final] delta(IntFinalOverwritten) == 0
 //@   modifies s.agent.currentState, s.agent.stateLastModified, s.agent.errorType, mapof(s.agent.events), all(gateImpl.arrived)
 //@   ensures [parks-then-runs] r0 == nil ==> s.agent.currentState == s.agent.RunningState
 //@   ensures [arrives-invoke-ready-gate] gateOf(intInvokeFlow(s.agent).agentReadyGate).arrived <= old(gateOf(intInvokeFlow(s.agent).agentReadyGate).arrived) + 1 && unchanged(gateOf(intInitFlow(s.agent).agentReadyGate).arrived, gateOf(intInitFlow(s.agent).externalAgentsRegisteredGate).arrived)
